@@ -5,19 +5,22 @@ use serde::{Deserialize, Serialize};
 use crate::core::{catch, Outcome, Violation};
 use crate::engines::fs::Writer;
 use crate::engines::map::{MapLife, MapViews};
-use crate::engines::stream::{Foreign, Points, RoundTrip, Skip, StreamFault, Supports};
+use crate::engines::names::NameVolume;
+use crate::engines::stream::{FileFault, Foreign, Points, RoundTrip, Skip, StreamFault, Supports};
 use crate::rng::Rng;
 
 #[derive(Clone, Debug, Serialize, Deserialize)]
 pub enum Scenario {
     RoundTrip(RoundTrip),
     StreamFault(StreamFault),
+    FileFault(FileFault),
     Supports(Supports),
     Foreign(Foreign),
     Skip(Skip),
     Writer(Writer),
     MapViews(MapViews),
     MapLife(MapLife),
+    NameVolume(NameVolume),
 }
 
 #[derive(Clone, Copy, Debug, PartialEq, Eq)]
@@ -32,12 +35,14 @@ impl Scenario {
         let r = catch(|| match self {
             Scenario::RoundTrip(s) => s.run(prop),
             Scenario::StreamFault(s) => s.run(prop),
+            Scenario::FileFault(s) => s.run(prop),
             Scenario::Supports(s) => s.run(prop),
             Scenario::Foreign(s) => s.run(prop),
             Scenario::Skip(s) => s.run(prop),
             Scenario::Writer(s) => s.run(prop),
             Scenario::MapViews(s) => s.run(prop),
             Scenario::MapLife(s) => s.run(prop),
+            Scenario::NameVolume(s) => s.run(prop),
         });
         match r {
             Ok(o) => o,
@@ -55,12 +60,14 @@ impl Scenario {
         match self {
             Scenario::RoundTrip(s) => s.simpler().into_iter().map(Scenario::RoundTrip).collect(),
             Scenario::StreamFault(s) => s.simpler().into_iter().map(Scenario::StreamFault).collect(),
+            Scenario::FileFault(s) => s.simpler().into_iter().map(Scenario::FileFault).collect(),
             Scenario::Supports(s) => s.simpler().into_iter().map(Scenario::Supports).collect(),
             Scenario::Foreign(s) => s.simpler().into_iter().map(Scenario::Foreign).collect(),
             Scenario::Skip(s) => s.simpler().into_iter().map(Scenario::Skip).collect(),
             Scenario::Writer(s) => s.simpler().into_iter().map(Scenario::Writer).collect(),
             Scenario::MapViews(s) => s.simpler().into_iter().map(Scenario::MapViews).collect(),
             Scenario::MapLife(s) => s.simpler().into_iter().map(Scenario::MapLife).collect(),
+            Scenario::NameVolume(s) => s.simpler().into_iter().map(Scenario::NameVolume).collect(),
         }
     }
 
@@ -74,6 +81,7 @@ impl Scenario {
                     None => vec![],
                 }
             },
+            Scenario::FileFault(f) => f.narrow_candidates().into_iter().map(Scenario::FileFault).collect(),
             Scenario::Writer(w) => w.narrow_candidates(prop).into_iter().map(Scenario::Writer).collect(),
             Scenario::MapViews(m) => m.narrow_candidates().into_iter().map(Scenario::MapViews).collect(),
             _ => vec![],
@@ -84,12 +92,14 @@ impl Scenario {
         match self {
             Scenario::RoundTrip(_) => "RoundTrip",
             Scenario::StreamFault(_) => "StreamFault",
+            Scenario::FileFault(_) => "FileFault",
             Scenario::Supports(_) => "Supports",
             Scenario::Foreign(_) => "Foreign",
             Scenario::Skip(_) => "Skip",
             Scenario::Writer(_) => "Writer",
             Scenario::MapViews(_) => "MapViews",
             Scenario::MapLife(_) => "MapLife",
+            Scenario::NameVolume(_) => "NameVolume",
         }
     }
 }
@@ -104,9 +114,13 @@ pub fn generate(prop: &str, tier: Tier, rng: &mut Rng) -> Scenario {
         },
         "C14" => {
             match rng.below(10) {
-                0..=5 => {
+                0..=4 => {
                     let max_len = if big { *rng.pick(&[300usize, 1200, 4096]) } else { *rng.pick(&[120usize, 400, 1000]) };
                     Scenario::StreamFault(StreamFault::generate(rng, max_len))
+                },
+                5 => {
+                    let max_len = if big { *rng.pick(&[300usize, 1200, 4096]) } else { *rng.pick(&[120usize, 400, 1000]) };
+                    Scenario::FileFault(FileFault::generate(rng, max_len))
                 },
                 6..=8 => Scenario::Writer(Writer::generate(rng, true, big)),
                 _ => Scenario::MapViews(MapViews::generate(rng, if big { 600 } else { 200 }, true)),
@@ -122,25 +136,29 @@ pub fn generate(prop: &str, tier: Tier, rng: &mut Rng) -> Scenario {
         "C12" => Scenario::Writer(Writer::generate(rng, false, big)),
         "C13" => Scenario::MapViews(MapViews::generate(rng, if big { 1500 } else { 300 }, false)),
         "C18" => Scenario::MapLife(MapLife::generate(rng, big)),
+        "C20" => Scenario::NameVolume(NameVolume::generate(rng, big)),
         _ => panic!("sdsim: no generator for property {}", prop),
     }
 }
 
 /// Number of scenarios per tier.
 pub fn budget(prop: &str, tier: Tier) -> u64 {
+    // Quick: a few seconds per property on 16 cores. Thorough: several minutes.
     match (prop, tier) {
-        ("C06", Tier::Quick) => 6_000,
-        ("C06", Tier::Thorough) => 400_000,
-        ("C14", Tier::Quick) => 2_400,
-        ("C14", Tier::Thorough) => 60_000,
-        ("C19", Tier::Quick) => 5_000,
-        ("C19", Tier::Thorough) => 300_000,
-        ("C12", Tier::Quick) => 8_000,
-        ("C12", Tier::Thorough) => 400_000,
+        ("C06", Tier::Quick) => 200_000,
+        ("C06", Tier::Thorough) => 12_000_000,
+        ("C14", Tier::Quick) => 6_000,
+        ("C14", Tier::Thorough) => 300_000,
+        ("C19", Tier::Quick) => 400_000,
+        ("C19", Tier::Thorough) => 30_000_000,
+        ("C12", Tier::Quick) => 1_000_000,
+        ("C12", Tier::Thorough) => 60_000_000,
         ("C13", Tier::Quick) => 1_500,
-        ("C13", Tier::Thorough) => 40_000,
-        ("C18", Tier::Quick) => 1_200,
-        ("C18", Tier::Thorough) => 40_000,
+        ("C13", Tier::Thorough) => 80_000,
+        ("C18", Tier::Quick) => 20_000,
+        ("C18", Tier::Thorough) => 500_000,
+        ("C20", Tier::Quick) => 48,
+        ("C20", Tier::Thorough) => 2_000,
         _ => 1000,
     }
 }
